@@ -3,8 +3,8 @@
   existing models:
 
     FieldWrapper.option_strings                      (field_wrapper.py:565-655)   = `optionStrings` (Model/Naming)
-    FieldWrapper.get_arg_options, bool branch        (field_wrapper.py:377-387)   : action = BooleanOptionalAction,
-                                                                                    `_conflict_prefix = self.prefix`
+    FieldWrapper.get_arg_options, bool branch        (field_wrapper.py:377-393)   : action = BooleanOptionalAction,
+                                                                                    `_conflict_prefix` = `conflictPrefix` (here)
     BooleanOptionalAction.__init__                   (custom_actions.py:61-131)   = `negStrings` (Model/BoolFlag)
     BooleanOptionalAction.__call__, which spelling   (custom_actions.py:152-168)  = `classify` (here)
     BooleanOptionalAction.__call__, value semantics  (custom_actions.py:158-172)  = `callOne`/`flagResult` (Model/BoolFlag)
@@ -43,11 +43,16 @@ structure Setup where
   negOption : Option Str      -- `negative_option`
   deriving Repr
 
+/-- `_conflict_prefix` handed to the action (field_wrapper.py:388-393, repo fix c681aea): the
+    FieldWrapper's prefix, spelled with dashes only under `DashVariant.DASH` like the positive option -/
+def conflictPrefix (cfg : Cfg) (fw : FW) : Str :=
+  if cfg.dash = .dashOnly then dashify fw.pref else fw.pref
+
 /-- the option strings of the action: `(positive, negative)`; `none` = set-up raises
-    (AssertionError / NotImplementedError in `BooleanOptionalAction.__init__`). -/
+    (NotImplementedError in `BooleanOptionalAction.__init__`: a positional-looking spelling). -/
 def optionsOf (s : Setup) : Option (List Str × List Str) :=
   let pos := optionStrings s.cfg s.fw
-  match negStrings pos s.negPrefix s.negOption s.fw.pref with
+  match negStrings pos s.negPrefix s.negOption (conflictPrefix s.cfg s.fw) with
   | some negs => some (pos, negs)
   | none => none
 
